@@ -83,7 +83,9 @@ def generate(rng, tier):
         shape = [rng.choice([3, 4, 5, 6]) for _ in range(nd)]
         r = rng.random()
         if r < 0.06:
-            yield {"mode": "nonfits", "shape": shape, "wseed": rng.randrange(10**6), "fam": "probe", "chain": gen_chain(rng, shape, 1)}
+            # a non-FITS base (the probe WCS or a gWCS) under 0-2 wrappers; depth 0 also behind a high-level wrapper
+            yield {"mode": "nonfits", "shape": shape, "wseed": rng.randrange(10**6), "fam": rng.choice(["probe", "gwcs"]),
+                   "chain": gen_chain(rng, shape, rng.choice([0, 0, 1, 2])), "hl": rng.random() < 0.5}
         elif r < 0.1:
             yield {"mode": "unknown", "shape": shape, "wseed": rng.randrange(10**6), "fam": "fits_sep", "chain": []}
         elif r < 0.3:
@@ -182,7 +184,11 @@ def run(case):
     try:
         base = make_base(case)
         if case["mode"] == "nonfits":
-            top = wrap(base, case["chain"])
+            top = wrap(W.low_level(base), case["chain"])
+            if case.get("hl") and not case["chain"]:
+                from astropy.wcs.wcsapi import HighLevelWCSWrapper
+                top = HighLevelWCSWrapper(top)
+            tags.append(f"nonfits-depth={len(case['chain'])}")
             try:
                 unwrap_wcs_to_fitswcs(top); err = None
             except Exception as e:
